@@ -357,6 +357,41 @@ func runAsm(m *model.Model, s *ob.Set) {
 		s.Check(why == "", R, c, rel(t), "unrolled body == tail loop x4", why)
 	}
 
+	// ---- A5b: the block-copy helpers may be entered with overlapping source and destination
+	// (in-place shifts by whole words): inside every loop iteration, and in every straight-line
+	// block, all loads precede all stores
+	for _, hn := range []string{"decCpy", "decCpyInv"} {
+		t := f.text(hn)
+		if t == nil {
+			s.Bad(R, "copy-order/"+hn, "dec_arith_amd64.s", "TEXT "+hn+" not found")
+			continue
+		}
+		why := ""
+		storeSeen := false
+		for _, in := range t.instrs {
+			if in.label != "" {
+				storeSeen = false // a new block / loop body starts
+				continue
+			}
+			switch {
+			case isLaneStore(in):
+				storeSeen = true
+			case isLaneLoad(in):
+				if storeSeen && why == "" {
+					why = fmt.Sprintf("%s: a load follows a store inside one copy block of %s: with overlapping source and destination (in-place shift by whole words) the store may already have overwritten the word being loaded", ipos(in), hn)
+				}
+			case strings.HasPrefix(in.op, "J"):
+				storeSeen = false
+			}
+		}
+		s.Check(why == "", R, "copy-order/"+hn, rel(t), "loads precede stores in every copy block", why)
+	}
+	// decCpyInv's unrolled body is congruent with its tail loop as well
+	if t := f.text("decCpyInv"); t != nil {
+		why := laneCongruent(t, "CU", []string{"CV"}, "CLoop", []string{"CE"})
+		s.Check(why == "", R, "lanes/decCpyInv", rel(t), "unrolled body == tail loop x4", why)
+	}
+
 	// ---- A6: inlined copies of div10W
 	{
 		ref := f.text("·div10W")
